@@ -110,6 +110,133 @@ Example hands_over_somewhere :
   code_step true (fun n => negb (n =? 4)%N) 3 {| ps_store := 5; ps_tail := 1; ps_gap := None; ps_da := 9 |} = ([(5, 9)], 5)%N.
 Proof. vm_compute. reflexivity. Qed.
 
+
+(* ---- the range reader: which heights of the P2P store one read touches ---------------------------------------------
+   [code_reads] runs the translated iteration of getHeadersFromHeaderStore (Check/GoLiteP2PIngress.get_expect — which
+   go_getHeaders_iter / go_getData_iter prove IS the translated Go iteration, identical for the two readers up to the
+   store's name) from i = start, in a store whose read of height h fails iff [fails h], reading off the code's result
+   whether it goes round again, stops at the end of the range, or returns the error.
+     reads_are_loop_reads   for every cursor below the store height and every signal: the heights the code reads when
+                            asked for (cursor+1, store height) are P2PIngress.loop_reads, in that order, and the read
+                            succeeds exactly when the model says no gap is hit — which is the [i_getok] the iteration
+                            lemma of the loop is instantiated with in [world_of]. *)
+Inductive verdict := VAgain (i : N) | VEnd | VError | VOther.
+Definition read_verdict (o : list gval * list gval) : verdict :=
+  match fst o with
+  | [VTok t []; _; VN i] => if String.eqb t "continue" then VAgain i else if String.eqb t "break" then VEnd else VOther
+  | [VNil; VErr true] => VError
+  | _ => VOther
+  end.
+Fixpoint code_reads (store : string) (fuel : nat) (st en i : N) (fails : N -> bool) : list N * bool :=
+  match fuel with
+  | O => ([], false)
+  | S f =>
+      match read_verdict (get_expect store {| g_start := st; g_end := en; g_i := i; g_ok := negb (fails i) |}) with
+      | VAgain i' => let '(r, ok) := code_reads store f st en i' fails in (i :: r, ok)
+      | VEnd => ([], true)
+      | VError => ([i], false)
+      | VOther => ([], false)
+      end
+  end.
+
+Fixpoint spec_reads (n : nat) (i : N) (fails : N -> bool) : list N * bool :=
+  match n with
+  | O => ([], true)
+  | S k => if fails i then ([i], false) else let '(r, ok) := spec_reads k (i + 1) fails in (i :: r, ok)
+  end.
+
+Lemma verdict_of_get : forall store st en i ok,
+  read_verdict (get_expect store {| g_start := st; g_end := en; g_i := i; g_ok := ok |})
+  = if negb (i <=? en)%N then VEnd else if negb ok then VError else VAgain (i + 1).
+Proof.
+  intros store st en i ok. unfold read_verdict, get_expect; cbn [g_i g_end g_ok g_start].
+  destruct (i <=? en)%N; destruct ok; reflexivity.
+Qed.
+Lemma code_reads_unfold : forall store f st en i fails,
+  code_reads store (S f) st en i fails =
+  match read_verdict (get_expect store {| g_start := st; g_end := en; g_i := i; g_ok := negb (fails i) |}) with
+  | VAgain i' => let '(r, ok) := code_reads store f st en i' fails in (i :: r, ok)
+  | VEnd => ([], true)
+  | VError => ([i], false)
+  | VOther => ([], false)
+  end.
+Proof. reflexivity. Qed.
+
+Lemma code_reads_spec : forall store fails st en n i,
+  N.to_nat (en + 1 - i) = n -> (i <= en + 1)%N -> code_reads store (S n) st en i fails = spec_reads n i fails.
+Proof.
+  intros store fails st en n. induction n as [|n IH]; intros i Hn Hi.
+  - rewrite code_reads_unfold, verdict_of_get.
+    assert (H : (i <=? en)%N = false) by (apply N.leb_gt; lia). rewrite H. reflexivity.
+  - rewrite code_reads_unfold, verdict_of_get. cbn [spec_reads].
+    assert (H : (i <=? en)%N = true) by (apply N.leb_le; lia). rewrite H. cbn [negb].
+    destruct (fails i); cbn [negb]; [reflexivity|].
+    rewrite IH by lia. reflexivity.
+Qed.
+
+Lemma spec_reads_all : forall fails n a,
+  (forall h, (a < h <= a + N.of_nat n)%N -> fails h = false) -> spec_reads n (a + 1) fails = (seq_from a n, true).
+Proof.
+  intros fails n. induction n as [|n IH]; intros a H; [reflexivity|].
+  cbn [spec_reads seq_from]. rewrite H by lia. rewrite IH; [reflexivity|]. intros h Hh. apply H. lia.
+Qed.
+Lemma spec_reads_stop : forall fails k n a,
+  fails (a + N.of_nat k + 1)%N = true -> (forall h, (a < h <= a + N.of_nat k)%N -> fails h = false) -> (k < n)%nat ->
+  spec_reads n (a + 1) fails = (seq_from a (S k), false).
+Proof.
+  intros fails k. induction k as [|k IH]; intros n a Hf Hb Hn; (destruct n as [|n]; [lia|]).
+  - cbn [spec_reads seq_from]. replace (a + N.of_nat 0 + 1)%N with (a + 1)%N in Hf by lia. rewrite Hf. reflexivity.
+  - cbn [spec_reads]. rewrite Hb by lia.
+    rewrite (IH n (a + 1)%N); [reflexivity| | |lia].
+    + replace (a + 1 + N.of_nat k + 1)%N with (a + N.of_nat (S k) + 1)%N by lia. exact Hf.
+    + intros h Hh. apply Hb. lia.
+Qed.
+
+(* the store of a signal: a read of h fails iff h lies below what the store holds or is the height that is missing now *)
+Definition fails_of (s : psignal) (h : N) : bool :=
+  (h <? ps_tail s)%N || match ps_gap s with Some f => (h =? f)%N | None => false end.
+
+Theorem reads_are_loop_reads : forall (store : string) (cur : N) (s : psignal),
+  (cur <? ps_store s)%N = true ->
+  code_reads store (S (N.to_nat (ps_store s - cur))) (cur + 1) (ps_store s) (cur + 1) (fails_of s)
+  = (loop_reads cur s, negb (gap_hit cur s)).
+Proof.
+  intros store cur s Hlt. apply N.ltb_lt in Hlt.
+  rewrite code_reads_spec by lia.
+  unfold loop_reads, gap_hit, first_fail. rewrite (proj2 (N.ltb_lt _ _) Hlt).
+  set (n := N.to_nat (ps_store s - cur)). assert (Hn : (0 < n)%nat) by (unfold n; lia).
+  destruct (cur + 1 <? ps_tail s)%N eqn:Ht.
+  - (* the very first height is below what the store holds *)
+    rewrite (spec_reads_stop (fails_of s) 0 n cur); [| | intros h Hh; lia | lia].
+    + unfold heights_between. replace (N.to_nat (cur + 1 - cur)) with 1%nat by lia. reflexivity.
+    + unfold fails_of. replace (cur + N.of_nat 0 + 1)%N with (cur + 1)%N by lia. rewrite Ht. reflexivity.
+  - apply N.ltb_ge in Ht.
+    assert (Htail : forall h, (cur < h)%N -> (h <? ps_tail s)%N = false) by (intros h Hh; apply N.ltb_ge; lia).
+    destruct (ps_gap s) as [f|] eqn:Hg.
+    + destruct ((cur <? f)%N && (f <=? ps_store s)%N) eqn:Hin.
+      * apply andb_prop in Hin. destruct Hin as [H1 H2]. apply N.ltb_lt in H1. apply N.leb_le in H2.
+        set (k := N.to_nat (f - cur - 1)).
+        rewrite (spec_reads_stop (fails_of s) k n cur).
+        -- unfold heights_between. replace (N.to_nat (f - cur)) with (S k) by (unfold k; lia). reflexivity.
+        -- unfold fails_of. rewrite Hg. replace (cur + N.of_nat k + 1)%N with f by (unfold k; lia).
+           rewrite N.eqb_refl. apply orb_true_r.
+        -- intros h Hh. unfold fails_of. rewrite Hg, Htail by lia. cbn. apply N.eqb_neq. unfold k in Hh. lia.
+        -- unfold k, n. lia.
+      * rewrite (spec_reads_all (fails_of s) n cur).
+        -- reflexivity.
+        -- intros h Hh. unfold fails_of. rewrite Hg, Htail by lia. cbn. apply N.eqb_neq. intros ->.
+           assert ((cur <? f)%N = true) by (apply N.ltb_lt; lia).
+           assert ((f <=? ps_store s)%N = true) by (apply N.leb_le; unfold n in Hh; lia).
+           rewrite H, H0 in Hin. discriminate.
+    + rewrite (spec_reads_all (fails_of s) n cur); [reflexivity|].
+      intros h Hh. unfold fails_of. rewrite Hg, Htail by lia. reflexivity.
+Qed.
+
+Example reads_somewhere :
+  code_reads "headerStore" 5 4 7 4 (fails_of {| ps_store := 7; ps_tail := 1; ps_gap := Some 6%N; ps_da := 0 |}) = ([4; 5; 6]%N, false).
+Proof. vm_compute. reflexivity. Qed.
+
 Print Assumptions code_step_is_loop_step.
 Print Assumptions code_run_is_loop_run.
 Print Assumptions failed_read_keeps_cursor.
+Print Assumptions reads_are_loop_reads.
